@@ -17,9 +17,9 @@ fi
 SCRATCH="$(mktemp -d "${TMPDIR:-/tmp}/verif-ovl.XXXXXX")"
 trap 'rm -rf "$SCRATCH"' EXIT
 "$BIN/instr" -repo "$REPO" -out "$SCRATCH" >"$SCRATCH/instr.log" 2>&1 || { cat "$SCRATCH/instr.log" >&2; echo "build.sh: instrumentation failed" >&2; exit 2; }
-cp "$SCRATCH/sites.json" "$BIN/sites.json"
+cp "$SCRATCH/sites.json" "$OUT.sites.json"
+cp "$SCRATCH/sites.json" "$BIN/sites.json.$$" && mv "$BIN/sites.json.$$" "$BIN/sites.json"
 cd "$HERE/sim" || exit 2
-cp "$REPO/go.sum" go.sum.repo 2>/dev/null
 # the harness module resolves the engine through a replace directive
 if [ "$REPO" != "/repo" ]; then
   MODFILE="$SCRATCH/go.mod"; sed "s#=> /repo#=> $REPO#" go.mod > "$MODFILE"; cp go.sum "$SCRATCH/go.sum"
